@@ -27,8 +27,8 @@ RULE = ('random histories (1..12 ops) of element / row-view / row / row-slice / 
 ASSUMPTIONS = [
     'numpy assignment/casting/broadcasting semantics on 1-d rows are the reference for the list-of-rows oracle',
     'Lean elements are exact rationals: generated values are small ints / dyadic floats so that float arithmetic is exact',
-    'the staged ra.py is held to the fully repaired variant of the Lean model (Cfg.current = all five repairs); '
-    'five behavioural probes must detect every repair, a probe that does not is reported as a violation',
+    'the staged ra.py is held to the fully repaired variant of the Lean model (Cfg.current = all six repairs); '
+    'six behavioural probes must detect every repair, a probe that does not is reported as a violation',
     'copy=False construction is documented aliasing and is excluded',
 ]
 TRUSTED_EXTRA = ['Python list-of-rows oracle in harness/props/c06.py (Spec class); compared with Lean specStep on every step']
@@ -193,7 +193,7 @@ class Spec:
             self._scatter(tg, op['v'])
         elif k == 'append':
             if not op['v']:
-                raise SpecError('value')
+                raise SpecError('index')
             self.rows.extend(np.array(x) for x in op['v'])
             self.norm()
         elif k == 'appendFlat':
@@ -267,7 +267,7 @@ def _wrap_int(i, how):
     return i
 
 
-def mat(op):
+def mat(op, default_dtype=None):
     """the op with its values in the containers / dtypes it asks for ('vw': wrapper of scalar
     values, 'vdt': dtype of array values); the same objects go to the oracle and to the real code"""
     vw, vdt = op.get('vw'), op.get('vdt')
@@ -282,8 +282,8 @@ def mat(op):
         # an empty row of a row-structured value has the dtype of the other rows (not numpy's float64 default)
         for key in rowsv:
             full = [np.array(r) for r in op[key] if len(r)]
-            if full:
-                dt0 = np.result_type(*[x.dtype for x in full])
+            dt0 = np.result_type(*[x.dtype for x in full]) if full else default_dtype
+            if dt0 is not None:
                 o[key] = [np.array(r, dtype=dt0) for r in op[key]]
     if vw is not None:
         if 'c_' in o:
@@ -632,7 +632,7 @@ def observe_rows(rows, light=False):
         'rows': cr, '_array': cr, 'flat': flat, '_data': flat, 'elems': el, 'iter': cr,
         'getslice': cr, 'size': sum(L),
         'shape': [len(rows), L[0] if len(set(L)) == 1 else None],
-        'max': cs(fl.max()), 'min': cs(fl.min()),
+        'max': cs(fl.max()) if fl.size else 'EXC:ValueError', 'min': cs(fl.min()) if fl.size else 'EXC:ValueError',
         'all': bool(fl.all()), 'any': bool(fl.any()), 'objdtype': False,
     }
 
@@ -647,7 +647,8 @@ def observe_model(st):
         'lengths': L, 'starts': st['starts'], 'len': st['len'], 'rows': arr, '_array': arr,
         'flat': data, '_data': data, 'elems': elems, 'iter': [[unq(x) for x in r] for r in st['iter']],
         'getslice': arr, 'size': st['size'],
-        'max': unq(st['max']), 'min': unq(st['min']), 'all': st['all'], 'any': st['any'],
+        'max': unq(st['max']) if st['max'] is not None else 'EXC:ValueError',
+        'min': unq(st['min']) if st['min'] is not None else 'EXC:ValueError', 'all': st['all'], 'any': st['any'],
         'objdtype': st['objdtype'],
     }
 
@@ -724,8 +725,13 @@ def detect_cfg():
         return type(np.int64(2) * a).__name__ == 'RaggedArray' and crows(np.float32(1) + b) == crows([[2, 3], [4, 5, 6]]) \
             and crows(np.array(3) < b) == crows([[False, False], [False, True, True]])
 
+    def p_appendempty():
+        a = ra.RaggedArray([np.array([], dtype=int), np.array([], dtype=int)])
+        a.append([np.array([1])])
+        return [int(x) for x in a.lengths] == [0, 0, 1]
+
     return {'reads': ok(p_reads), 'rowviews': ok(p_rowviews), 'arrayviews': ok(p_arrayviews),
-            'append': ok(p_append), 'priority': ok(p_priority)}
+            'append': ok(p_append), 'priority': ok(p_priority), 'appendempty': ok(p_appendempty)}
 
 
 REPAIRS = {
@@ -734,13 +740,15 @@ REPAIRS = {
     'arrayviews': '_array is never a 2-d object copy (row views write through to _data) - C06-array-row-views',
     'append': 'append() of one flat row - C06-append-flat-row',
     'priority': 'numpy scalars / 0-d arrays on the left of an operator defer to the reflected operators - C06-array-priority',
+    'appendempty': 'append() keeps the rows of an array whose rows are all empty - C06-append-all-empty',
 }
-# /repo HEAD: all five repairs are committed
-CFG_CURRENT = {'reads': True, 'rowviews': True, 'arrayviews': True, 'append': True, 'priority': True}
+# /repo HEAD: all six repairs are committed
+CFG_CURRENT = {'reads': True, 'rowviews': True, 'arrayviews': True, 'append': True, 'priority': True,
+               'appendempty': True}
 
 
 def enforce_variant(ctx):
-    """/repo HEAD carries all five repairs: a probe that does not see one is a violation; the
+    """/repo HEAD carries all six repairs: a probe that does not see one is a violation; the
     Lean model is always driven in its fully repaired variant"""
     seen = detect_cfg()
     ctx.note('variant_probes', seen)
@@ -778,6 +786,8 @@ def classify(op, spec):
     k = op['k']
     n = len(spec.rows)
     Ls = [len(r) for r in spec.rows]
+    if k in ('append', 'appendFlat') and not any(len(r) for r in spec.rows):
+        return 'append-all-empty-rows'
     if is_np_left(op):
         return 'numpy-scalar-left-operand'
     if k == 'setMask' and not any(any(m) for m in op['mask']):
@@ -857,6 +867,10 @@ def gen_state(rng, dtype=None, family='std'):
     dtype = dtype or ['int', 'float', 'int', 'float', 'bool'][rint(rng, 0, 4)]
     kind = KIND[np.dtype(DT[dtype]).kind]
     L = gen_lengths(rng)
+    if family == 'all-empty':
+        rows = [[] for _ in range(rint(rng, 1, 3))]
+        return {'rows': rows, 'dtype': dtype, 'ctor': ['nested', 'flat', 'flat-np', 'nested-nocheck'][rint(rng, 0, 3)],
+                'family': family}
     if family == 'empty-rows':
         L = [l if rng.random() < 0.6 else 0 for l in L] + [rint(rng, 1, 3)]
         rng.shuffle(L)
@@ -967,7 +981,8 @@ FAMILIES = {
     'scale-down': {'scale': 2.0 ** -30},
     'empty-rows': {},
     'views': {'held': 0.8},                       # row views kept by the caller across in-place writes
-    'idpool': {'idpool': 0.7},                    # index ndarrays (with negative ids) re-used across structure changes
+    'idpool': {'idpool': 0.7},
+    'all-empty': {'allempty': True},              # every row empty: append / row writes / operators on no cells                    # index ndarrays (with negative ids) re-used across structure changes
 }
 
 
@@ -1022,7 +1037,11 @@ def gen_op(rng, spec, kinds=None, fam=None, mem=None):
         kinds = ['setPaired', 'setPaired', 'set2d', 'setRows', 'append', 'setRow', 'appendFlat', 'iopAt']
     if fam.get('held') and kinds is None and rng.random() < 0.45:
         kinds = ['viewWrite', 'setElem', 'set2d', 'setPaired', 'setMask', 'iopAt', 'binop']
+    if fam.get('allempty') and kinds is None:
+        kinds = ['append', 'append', 'appendFlat', 'setRow', 'setRows', 'iop', 'binop', 'setMask', 'set2d', 'copyCtor']
     op = _gen_op(rng, spec, kinds)
+    if op['k'] == 'append' and rng.random() < 0.04:
+        op['v'], op['form'] = [], 'listarr'          # a.append([]) : IndexError from values[0]
     k = op['k']
     kind = spec.kind
     if k == 'viewWrite' and rng.random() < fam.get('held', 0.3):
@@ -1331,6 +1350,8 @@ def run_history(st, ops_or_gen, rng=None, nsteps=None, kinds=None, fam=None, lig
         a = build_real(st['rows'], st['dtype'], st['ctor'], keep)
     src_snap = [x.tobytes() if not isinstance(x, list) else repr(x) for x in keep]
     init = {'o_real': observe_real(a, light), 'o_spec': observe_rows(spec.rows, light), 'alias': None}
+    if not any(len(r_) for r_ in spec.rows):
+        init['o_spec'].pop('shape', None)
     steps = []
     ctor = st['ctor']
     views = {}          # row views the caller holds on to (taken by earlier viewWrite steps)
@@ -1349,7 +1370,7 @@ def run_history(st, ops_or_gen, rng=None, nsteps=None, kinds=None, fam=None, lig
         t += 1
         S = Step()
         S.op, S.spec_before, S.extra, S.ctor_before = op, spec, [], ctor
-        mop = mat(op)
+        mop = mat(op, spec.rows[0].dtype)
         s2 = spec.copy()
         S.res_spec = None
         try:
@@ -1368,12 +1389,15 @@ def run_history(st, ops_or_gen, rng=None, nsteps=None, kinds=None, fam=None, lig
                 warnings.simplefilter('ignore')
                 with np.errstate(all='ignore'):
                     box = []
-                    a2, res = apply_real(a, mat(op), box, aux)
+                    a2, res = apply_real(a, mat(op, spec.rows[0].dtype), box, aux)
             S.rerr = None
         except Exception as e:  # noqa
             S.rerr, a2, res = errclass(e), a, None
         S.o_real = observe_real(a2, light)
         S.o_spec = observe_rows(s2.rows, light)
+        if not any(len(r_) for r_ in s2.rows):
+            # `.shape` (a read attribute, property C05) looks at `_data[0]`: not defined without cells
+            S.o_spec.pop('shape', None)
         # ---- index objects are operands too: they must come back exactly as they were handed over
         for obj_, snap_, ids_ in aux['idx']:
             if snap_index(obj_) != snap_:
@@ -1445,7 +1469,8 @@ def run_history(st, ops_or_gen, rng=None, nsteps=None, kinds=None, fam=None, lig
         S.dev = bool((S.serr is None) != (S.rerr is None) or diff(S.o_real, S.o_spec) or S.extra
                      or (S.res_real is not None and S.res_spec is not None
                          and diff(S.res_real, observe_rows(S.res_spec, light),
-                                  [k for k in OBS if k not in ('objdtype',)])))
+                                  [k for k in OBS if k not in ('objdtype',)
+                                   and not (k == 'shape' and not any(len(r_) for r_ in S.res_spec))])))
         S.spec_after = s2
         steps.append(S)
         spec = s2
@@ -1521,6 +1546,9 @@ def judge(ctx, st, steps, resp, cfg, tags=()):
             if 'err' in mm:
                 if mm['err'] == 'garbled':
                     model_agrees = S.rerr is None and 'NESTED' in repr(S.o_real.get('_data'))
+                elif mm['err'] == 'empty-array':      # the call returns an object without `_data`
+                    model_agrees = S.rerr is None and (S.o_real.get('_data') == 'EXC:AttributeError'
+                                                       or S.o_real.get('lengths') == [])
                 else:
                     model_agrees = (S.rerr == mm['err'])
             else:
@@ -1930,9 +1958,9 @@ def big_histories(ctx, cfg, rng):
 
 
 # ================================================================== entry points
-QUICK_FAMILIES = [('std', 330), ('dtype', 90), ('mixed', 90), ('views', 50), ('idpool', 70), ('empty-rows', 40),
+QUICK_FAMILIES = [('std', 330), ('dtype', 90), ('mixed', 90), ('views', 50), ('idpool', 70), ('all-empty', 30), ('empty-rows', 40),
                   ('scale-up', 20), ('scale-down', 20)]
-THOROUGH_FAMILIES = [('std', 3600), ('dtype', 1200), ('mixed', 1200), ('views', 600), ('idpool', 500), ('empty-rows', 500),
+THOROUGH_FAMILIES = [('std', 3600), ('dtype', 1200), ('mixed', 1200), ('views', 600), ('idpool', 500), ('all-empty', 300), ('empty-rows', 500),
                      ('scale-up', 250), ('scale-down', 250)]
 
 
